@@ -169,6 +169,11 @@ func New(t *tape.Tape, o Options) *Workspace {
 		f := &File{Module: mi, Path: fmt.Sprintf("%s/%c%d.proto", dir, 'a'+rune(t.Draw("ws.letter", 6)), j)}
 		f.Package = strings.ReplaceAll(dir, "/", ".")
 		f.Message = f.Package + fmt.Sprintf(".M%d", j)
+		if !o.LintClean && t.Draw("ws.nopackage", 8) == 7 {
+			// a file without a package statement: its types live in the unnamed package
+			f.Package = ""
+			f.Message = fmt.Sprintf("M%d", j)
+		}
 		switch t.Draw("ws.syntax", 8) {
 		case 1:
 			f.Syntax = "proto2"
@@ -263,7 +268,13 @@ func New(t *tape.Tape, o Options) *Workspace {
 		}
 	}
 	if o.PlantError {
-		ws.Planted = order[t.Draw("ws.plant", len(order))]
+		var cands []*File
+		for _, f := range order {
+			if !f.IsOptions {
+				cands = append(cands, f)
+			}
+		}
+		ws.Planted = cands[t.Draw("ws.plant", len(cands))]
 	}
 	for _, f := range order {
 		render(t, ws, f, o)
@@ -482,8 +493,10 @@ func render(t *tape.Tape, ws *Workspace, f *File, o Options) {
 	case "editions":
 		w("edition = \"2023\";\n\n")
 	}
-	w("package " + f.Package + ";\n\n")
-	if !o.LintClean && t.Draw("ws.fileopts", 3) == 2 {
+	if f.Package != "" {
+		w("package " + f.Package + ";\n\n")
+	}
+	if !o.LintClean && t.Draw("ws.fileopts", 3) == 2 && f.Package != "" {
 		w(fmt.Sprintf("option java_package = \"com.%s\";\noption go_package = \"example.com/%s;pb\";\noption java_multiple_files = true;\n\n", f.Package, strings.ReplaceAll(f.Package, ".", "/")))
 	}
 	for _, imp := range f.Imports {
@@ -575,6 +588,13 @@ func render(t *tape.Tape, ws *Workspace, f *File, o Options) {
 		} else {
 			w(fmt.Sprintf("  reserved %d to %d;\n  reserved \"old_name\", \"older_name\";\n", num+10, num+12))
 		}
+	}
+	if !o.LintClean && t.Draw("ws.oddcomments", 4) == 3 {
+		// comments where no declaration claims them: before an option name, after the semicolon,
+		// between the last field and the closing brace of a one-line message
+		w(fmt.Sprintf("  %sint32 odd = %d [/* before the option */ deprecated = false]; /* after the semicolon */\n", label, num))
+		num++
+		w(fmt.Sprintf("  message OneLine { %sstring only = 1; /* before the brace */ }\n", label))
 	}
 	switch plantKind {
 	case "undefined-type":
